@@ -15,7 +15,10 @@ package app
 // cluster; A = the transactions some replica had received (acknowledged, w = 1).
 
 import (
+	"time"
+
 	"github.com/yandex/mysync/internal/config"
+	"github.com/yandex/mysync/internal/mysql/gtids"
 	"github.com/yandex/mysync/internal/mysql"
 	"github.com/yandex/mysync/internal/verifnd"
 
@@ -23,6 +26,20 @@ import (
 )
 
 type verifCrash struct{}
+
+// verifDCSView: one daemon's handle on the shared store; a deposed daemon is refused the lock.
+type verifDCSView struct {
+	*verifDCS
+	deposed *bool
+}
+
+func (v *verifDCSView) AcquireLock(path string) bool {
+	if *v.deposed {
+		verifnd.Event("lock refused (deposed)")
+		return false
+	}
+	return v.verifDCS.AcquireLock(path)
+}
 
 // verifNewAppOn: another daemon instance (own config/registry/timers) over the same fleet and store.
 func verifNewAppOn(w *verifWorld, local string) *App {
@@ -125,20 +142,37 @@ func H_C07_crash_resume() {
 
 	// ---- clients ----
 	// client.load = 1: at every environment call of either manager every reachable writable
-	// server commits one more transaction of its own (up to 17-20 per server). It is
+	// server commits one more transaction of its own after every change of the servers' configuration (up to 17-20 per server; a path that needs more is cut). It is
 	// acknowledged to the client at once on a server without semi-sync, and on a semi-sync
 	// master only when a connected semi-sync replica has received it.
 	load := verifnd.Choose("client.load", verifnd.Param("loads", 2)) == 1
 	next := map[string]uint{"m": uint(verifnd.Param("gtid_bits", 3)), "r1": 20, "r2": 40}
 	last := map[string]uint{"m": 20, "r1": 40, "r2": 60}
+	lastSig := ""
 	client := func() {
 		if !load {
 			return
 		}
+		// (commits between two changes of the servers' configuration are equivalent for what can be
+		// lost, so the clients commit once after every change: writability, offline mode, replication
+		// source and threads, semi-sync settings)
+		sig := ""
 		for _, h := range ha {
 			s := w.fleet.Servers[h]
-			if !s.Alive || s.ReadOnly || s.Offline || next[h] >= last[h] {
+			sig += h + ":" + yn(s.Alive) + yn(s.ReadOnly) + yn(s.Offline) + yn(s.IsReplica) + s.Source + yn(s.IORunning) + yn(s.SQLRunning) + yn(s.SSMaster) + yn(s.SSSlave) + itoa(s.WaitCount) + ";"
+		}
+		if sig == lastSig {
+			return
+		}
+		lastSig = sig
+		for _, h := range ha {
+			s := w.fleet.Servers[h]
+			if !s.Alive || s.ReadOnly || s.Offline {
 				continue
+			}
+			if next[h] >= last[h] {
+				verifnd.Reach("C07.client.budget-exhausted")
+				verifnd.Assume(false) // more commits than the transaction universe holds: outside the bound
 			}
 			t := uint64(1) << next[h]
 			next[h]++
@@ -169,10 +203,43 @@ func H_C07_crash_resume() {
 		return nil
 	}
 
-	// ---- manager #1 dies right before its k-th environment call ----
-	crashAt := verifnd.Choose("crash.at", verifnd.Param("max_calls", 60)+1) // 0 = no crash
+	// ---- the next manager (new daemon instance on r1) ----
+	var app2 *App
+	rounds := verifnd.Param("rounds", 6)
+	successor := func() bool {
+		if app2 == nil {
+			app2 = verifNewAppOn(w, "r1")
+		}
+		quiet := false
+		for i := 0; i < rounds && !quiet; i++ {
+			cs := app2.getClusterStateFromDB()
+			for h, ns := range cs {
+				w.dcs.seed("health/"+h, ns)
+			}
+			n0, m0 := len(w.fleet.Log), w.dcs.masterHost()
+			_, pending0 := w.dcs.peek(pathCurrentSwitch)
+			st := app2.stateManager()
+			verifnd.Assert(st == stateManager, "resume.stays-manager")
+			_, pending := w.dcs.peek(pathCurrentSwitch)
+			// quiescent: a whole iteration with no request pending before or after it, no statement sent to
+			// any server and the recorded master unchanged (the active list is re-published every
+			// iteration even when unchanged)
+			quiet = !pending0 && !pending && len(w.fleet.Log) == n0 && w.dcs.masterHost() == m0
+		}
+		return quiet
+	}
+
+	// ---- how manager #1 fails ----
+	// failure 0: the process dies right before its k-th environment call (k = crash.at; 0 = it survives the iteration)
+	// failure 1: it loses the manager lock while it is sleeping in one of its wait loops (time passes there:
+	//            its session expires, the successor takes over and runs to quiescence), then wakes up and goes on
+	failure := verifnd.Choose("failure", 1+verifnd.Param("depose", 0))
+	crashAt := 0
+	if failure == 0 {
+		crashAt = verifnd.Choose("crash.at", verifnd.Param("max_calls", 60)+1)
+	}
 	calls := 0
-	crashed := false
+	crashed, deposed := false, false
 	tick := func() {
 		client()
 		calls++
@@ -183,6 +250,49 @@ func H_C07_crash_resume() {
 	}
 	w.fleet.Before = func(host, stmt string) { tick() }
 	w.dcs.Before = func(op, path string) { tick() }
+	if failure == 1 {
+		w.app.dcs = &verifDCSView{verifDCS: w.dcs, deposed: &deposed}
+		// relay logs take time to apply: nothing is applied before manager #1 has slept n times
+		w.fleet.ApplyAfterSleeps = verifnd.Choose("env.apply-after-sleeps", 1+verifnd.Param("slow", 2))
+		inWait := 0
+		var spy func(app *App, node *mysql.Node, gtidset gtids.GTIDSet, timeout time.Duration, sleep time.Duration) (bool, error)
+		spy = func(app *App, node *mysql.Node, gtidset gtids.GTIDSet, timeout time.Duration, sleep time.Duration) (bool, error) {
+			VerifHook_App_waitForCatchUp = nil
+			if app == w.app {
+				inWait++
+			}
+			r, err := app.waitForCatchUp(node, gtidset, timeout, sleep)
+			if app == w.app {
+				inWait--
+			}
+			VerifHook_App_waitForCatchUp = spy
+			return r, err
+		}
+		VerifHook_App_waitForCatchUp = spy
+		// time passes while manager #1 sleeps and while a statement of its catch-up wait is in flight
+		depose := func(where string) {
+			if deposed || inWait == 0 || verifnd.Choose("deposed."+where, 2) == 0 {
+				return
+			}
+			deposed = true
+			verifnd.Reach("C07.deposed")
+			verifnd.Fact("deposed", where)
+			verifnd.Event("manager #1 deposed: " + where)
+			if verifnd.Choose("deposed.long-pause", 2) == 1 {
+				// ... and stays suspended for longer than the switchover timeout
+				verifnd.Sleep(cfg.SwitchoverTimeout + time.Second)
+			}
+			b1, b2, b3 := w.fleet.Before, w.dcs.Before, w.fleet.OnCall
+			w.fleet.Before = func(host, stmt string) { client() }
+			w.dcs.Before = func(op, path string) { client() }
+			w.fleet.OnCall = nil
+			successor()
+			w.fleet.Before, w.dcs.Before, w.fleet.OnCall = b1, b2, b3
+			verifnd.Event("manager #1 goes on")
+		}
+		verifnd.OnSleep = func() { depose("while-sleeping") }
+		w.fleet.OnCall = func(host, stmt string) { depose("during-a-statement-of-the-wait") }
+	}
 	func() {
 		defer func() {
 			if r := recover(); r != nil {
@@ -193,10 +303,15 @@ func H_C07_crash_resume() {
 		}()
 		w.app.stateManager()
 	}()
+	verifnd.OnSleep, w.fleet.OnCall, VerifHook_App_waitForCatchUp = nil, nil, nil
 	w.fleet.Before = func(host, stmt string) { client() }
 	w.dcs.Before = func(op, path string) { client() }
 	if crashAt != 0 && !crashed {
 		// fewer environment calls than the chosen crash point on this path: covered by crash.at = 0
+		verifnd.Assume(false)
+	}
+	if failure == 1 && !deposed {
+		// never slept, or never deposed: covered by failure 0 with crash.at = 0
 		verifnd.Assume(false)
 	}
 	if crashed {
@@ -204,23 +319,7 @@ func H_C07_crash_resume() {
 		verifnd.Fact("crash_before_call", itoa(crashAt))
 	}
 
-	// ---- the next manager (new daemon instance on r1) ----
-	app2 := verifNewAppOn(w, "r1")
-	rounds := verifnd.Param("rounds", 6)
-	quiet := false
-	for i := 0; i < rounds && !quiet; i++ {
-		cs := app2.getClusterStateFromDB()
-		for h, ns := range cs {
-			w.dcs.seed("health/"+h, ns)
-		}
-		n0, m0 := len(w.fleet.Log), w.dcs.masterHost()
-		st := app2.stateManager()
-		verifnd.Assert(st == stateManager, "resume.stays-manager")
-		_, pending := w.dcs.peek(pathCurrentSwitch)
-		// quiescent: no request pending, no statement sent to any server, recorded master unchanged
-		// (the active list is re-published every iteration even when unchanged)
-		quiet = !pending && len(w.fleet.Log) == n0 && w.dcs.masterHost() == m0
-	}
+	quiet := successor()
 	if !quiet {
 		verifnd.Reach("C07.not-quiescent")
 	}
@@ -268,6 +367,13 @@ func H_C07_crash_resume() {
 			verifnd.Reach("C07.master-kept")
 		}
 	}
+}
+
+func yn(b bool) string {
+	if b {
+		return "1"
+	}
+	return "0"
 }
 
 func itoa(n int) string {
